@@ -95,7 +95,12 @@ def modelledS4 : List S4Entry := [
   ⟨str% "chaincore/node/node_pool.go:Clone", 1, .independent, ["site_pool_Clone"]⟩,
   ⟨str% "chaincore/node/node_pool.go:UnmarshalJSON", 1, .errorChoice, ["site_pool_Unmarshal"]⟩,
   ⟨str% "chaincore/node/node_pool.go:UnmarshalMsg", 1, .errorChoice, ["site_pool_Unmarshal"]⟩,
-  ⟨str% "chaincore/node/node_pool.go:ShuffleNodes", 1, .notExecution, ["networking only: n2n send/request, block fetcher"]⟩
+  ⟨str% "chaincore/node/node_pool.go:ShuffleNodes", 1, .notExecution, ["networking only: n2n send/request, block fetcher"]⟩,
+  -- collect-then-sort loops that are NOT shape S3 (S3 = the map keys themselves are collected and sorted by themselves):
+  -- sorted by a measured send time, ties in map order — networking only
+  ⟨str% "chaincore/node/node_pool.go:GetNodesByLargeMessageTime", 1, .notExecution, ["networking only: block / message dissemination order"]⟩,
+  -- collects the delegate pools (values) and sorts them by DelegateID, which is the key they are stored under: a total order
+  ⟨str% "smartcontract/stakepool/stakepool.go:getRandPools", 1, .independent, ["site_getRandPools"]⟩
 ]
 
 /-- **every S4 site is individually treated**: a new `range` over a map with an unrecognised body shape in reachable code —
@@ -217,6 +222,15 @@ enumeration; with one offending share the same answer. (It returns `(nil, false)
 on the order.) -/
 theorem site_sos_Validate {α ε : Type} (check : α → Option ε) {o₁ o₂ : List α} (hp : o₁.Perm o₂) :
     (firstError check o₁).isSome = (firstError check o₂).isSome := firstError_isSome_perm check hp
+
+/-- stakepool `getRandPools`: the pools are collected in map order and sorted by `DelegateID`; every pool is stored under its
+delegate id (`sp.Pools[dp.DelegateID]`), so the sort key is injective on the collected pools and the sorted slice is unique.
+(A sort by a non-injective key — e.g. by balance — keeps map order among ties: the translator classifies such a loop S4.) -/
+theorem site_getRandPools {α : Type} (key : α → Nat) (hinj : ∀ a b, key a = key b → a = b) {o₁ o₂ : List α} (hp : o₁.Perm o₂) :
+    o₁.mergeSort (fun a b => decide (key a ≤ key b)) = o₂.mergeSort (fun a b => decide (key a ≤ key b)) :=
+  s3_sort_of_perm _ (fun a b c h₁ h₂ => by simp only [decide_eq_true_eq] at *; omega)
+    (fun a b => by simp only [Bool.or_eq_true, decide_eq_true_eq]; omega)
+    (fun a b h₁ h₂ => hinj a b (by simp only [decide_eq_true_eq] at *; omega)) hp
 
 /-! ### node pool -/
 
